@@ -607,6 +607,18 @@ func c04Eligible(p *chk.Prog, r *chk.Report) {
 				}
 			}
 			x.Check("speakersForPool:pool-selects-node", s.Pos(), selects, "", "a node that no L2 advertisement of the pool selects can become a candidate")
+			// the converse, where the three tests stand directly in the candidate loop: a usable speaker is left out only for
+			// one of them. A further reason (a speaker whose Node object this process has not seen yet, say) makes the
+			// candidate set depend on something the other speakers do not share, and two of them elect themselves.
+			if lrs, isRs := f.LoopOf(s.Node).(*ast.RangeStmt); isRs && (rangeKey(f, lrs)(key) || rangeVal(f, lrs)(key)) &&
+				g.Dominated(s, netOK(same)) && g.Dominated(s, exclOK(same)) && g.Dominated(s, g.GPat(true, "poolMatchesNodeL2(P, S)", chk.H("P", pool), chk.H("S", same))) {
+				reasons := chk.GAnyOf(
+					g.GPat(true, "k8snodes.IsNetworkUnavailable(N[S])", chk.H("N", nodes), chk.H("S", same)),
+					g.GPat(true, "!IGN && k8snodes.IsNodeExcludedFromBalancers(N[S])", chk.H("IGN", recvFieldOrPassed(p, f, "layer2Controller", "ignoreExcludeLB")), chk.H("N", nodes), chk.H("S", same)),
+					g.GPat(false, "poolMatchesNodeL2(P, S)", chk.H("P", pool), chk.H("S", same)))
+				isSet := func(n ast.Node) bool { return n == s.Top }
+				x.Check("speakersForPool:no-other-exclusion", lrs.Pos(), !loopSkipsWithout(g, lrs, isSet, reasons), "", "a usable speaker can be left out of the candidates for a reason other than an unavailable network, the exclusion label or the pool's node selection (e.g. its Node object not being in this speaker's cache yet): the candidate set then differs between speakers that see the same cluster, and two of them can elect themselves for one address")
+			}
 			// s ranges over the eligible nodes
 			rs, _ := f.LoopOf(s.Node).(*ast.RangeStmt)
 			okSrc := rs != nil && rangeKey(f, rs)(key)
